@@ -4,10 +4,49 @@ from __future__ import annotations
 import itertools
 import random
 
-HEADER = ("import dataclasses\nimport dataclasses as d\nimport typing\n"
+HEADER = ("import dataclasses\nimport dataclasses as d\nimport typing\nimport typing as t\n"
           "from dataclasses import KW_ONLY, InitVar, dataclass, field\n"
           "from dataclasses import dataclass as dc, field as fld\n"
-          "from typing import ClassVar\n\n")
+          "from dataclasses import KW_ONLY as KW, InitVar as IV\n"
+          "from typing import Annotated, ClassVar, Final\nfrom typing import ClassVar as CV\n\n")
+FUTURE = "from __future__ import annotations\n"      # postponed evaluation: every annotation of the module is stored as its text
+
+# how the special forms and ordinary types are written; CPython decides what a spelling means in a given module
+CLASSVAR_NAMES = ["ClassVar", "ClassVar", "ClassVar", "typing.ClassVar", "t.ClassVar", "CV"]
+INITVAR_NAMES = ["InitVar", "InitVar", "InitVar", "dataclasses.InitVar", "d.InitVar", "IV"]
+KW_ONLY_NAMES = ["KW_ONLY", "KW_ONLY", "KW_ONLY", "dataclasses.KW_ONLY", "d.KW_ONLY", "KW"]
+ORDINARY = ["int", "str", "list", "int | None", "list[int]", "list['int']", "t.Optional[int]", "Final[int]", "Final", "typing.Final[str]"]
+# ordinary types (for CPython) that mention the special forms, or nest them where dataclasses does not look
+MENTIONING = ["Annotated[int, 'ClassVar']", "Annotated[ClassVar[int], 1]", "Annotated[int, KW_ONLY]", "list[ClassVar]", "dict[str, KW_ONLY]",
+              "tuple[InitVar, ...]", "Final[ClassVar[int]]", "t.Annotated[t.ClassVar[int], 'x']"]
+
+
+def header(rng: random.Random) -> str:
+    """The imports of a generated module; 35%: with postponed evaluation of annotations (decided per module)."""
+    return (FUTURE if rng.random() < 0.35 else "") + HEADER
+
+
+def quoted(rng: random.Random, text: str, chance: float = 0.25) -> str:
+    """The annotation, or (``chance``) the annotation written wholly as a string literal."""
+    if rng.random() >= chance:
+        return text
+    if rng.random() < 0.12:
+        text = rng.choice([text + " ", text.replace("[", " [", 1), text + " | None"])    # still starts with the same (dotted) name
+    return '"' + text + '"'
+
+
+def ordinary_ann(rng: random.Random) -> str:
+    return quoted(rng, rng.choice(MENTIONING if rng.random() < 0.12 else ORDINARY), 0.2)
+
+
+def special_ann(rng: random.Random, names: list[str], args: list[str]) -> str:
+    return quoted(rng, rng.choice(names) + rng.choice(args), 0.3)
+
+
+def marker_line(rng: random.Random) -> str:
+    return f"_: {special_ann(rng, KW_ONLY_NAMES, [''])}"
+
+
 FIELD_NAMES = ["a", "b", "c", "e", "g", "h"]
 FIELD_CALLS = ["field", "field", "field", "dataclasses.field", "fld", "d.field"]
 DECORATOR_NAMES = ["dataclass", "dataclass", "dataclasses.dataclass", "dc", "d.dataclass"]
@@ -37,7 +76,7 @@ def gen_field(rng: random.Random, name: str, want_default: bool, plain_only: boo
     ``plain_only``: undecorated classes only get `x: T`, `x: T = v` and ClassVar lines (a Field object left as a class
     attribute of a non-dataclass is picked up by subclasses through getattr - not a situation the property is about)."""
     r = rng.random()
-    ann = rng.choice(["int", "str", "list", "int | None"])
+    ann = ordinary_ann(rng)
     if plain_only:
         r = r * 0.22 if r < 0.85 else 0.95
     if r < 0.22:
@@ -70,9 +109,9 @@ def gen_field(rng: random.Random, name: str, want_default: bool, plain_only: boo
             opts["default"] = "3"
         return f"{name}: {ann} = {field_call(rng, opts)}", want_default, True
     if r < 0.92:
-        iv = rng.choice(["InitVar[int]", "InitVar[int]", "dataclasses.InitVar[str]", "InitVar"])
+        iv = special_ann(rng, INITVAR_NAMES, ["[int]", "[int]", "[str]", "['int']", ""])
         return (f"{name}: {iv} = 7", True, True) if want_default else (f"{name}: {iv}", False, True)
-    cv = rng.choice(["ClassVar[int]", "typing.ClassVar[int]", "ClassVar"])
+    cv = special_ann(rng, CLASSVAR_NAMES, ["[int]", "[int]", "[int]", "['int']", "[list[int]]", ""])
     return (f"{name}: {cv} = 9" if rng.random() < 0.7 else f"{name}: {cv}"), False, False
 
 
@@ -87,7 +126,7 @@ def rebinding(rng: random.Random, name: str, form: str, idx: int) -> str:
     if form == "declare":       # a second annotated declaration, of any field form
         return gen_field(rng, name, rng.random() < 0.7)[0]
     if form == "bare":
-        return f"{name}: {rng.choice(['int', 'str', 'InitVar[int]'])}"
+        return f"{name}: {rng.choice([ordinary_ann(rng), ordinary_ann(rng), special_ann(rng, INITVAR_NAMES, ['[int]'])])}"
     return {"assign": f"{name} = {rng.choice(['5', 'None'])}",
             "assign_field": f"{name} = {field_call(rng, {'default': '6'})}",
             "chain": f"{name} = w{idx} = 0",
@@ -130,7 +169,7 @@ def gen_class(rng: random.Random, idx: int, bases: list[str], mode: str, init, k
         marker_at = rng.randrange(len(names) + 1) if rng.random() < 0.25 and mode != "plain" else None
         for i, name in enumerate(names):
             if marker_at == i:
-                body.append("_: KW_ONLY")
+                body.append(marker_line(rng))
                 after_marker = True
             want_default = (seen_default and not after_marker and rng.random() < 0.93) or rng.random() < 0.3
             text, has_default, positional = gen_field(rng, name, want_default, plain_only=mode == "plain")
@@ -139,7 +178,7 @@ def gen_class(rng: random.Random, idx: int, bases: list[str], mode: str, init, k
             if has_default and positional and not after_marker:
                 seen_default = True
         if marker_at == len(names):
-            body.append("_: KW_ONLY")
+            body.append(marker_line(rng))
         if own_names and mode != "plain" and rng.random() < 0.3:
             rebind_one(rng, body, own_names, idx)
             if rng.random() < 0.15:
@@ -250,7 +289,7 @@ def gen_case(rng: random.Random, combo: tuple | None = None) -> dict:
     if two_modules:
         # the module holding the bases is processed first (m0) or last (m1) when the package is walked in name order
         mod = ["m0", "m1"] if rng.random() < 0.5 else ["m1", "m0"]
-        files = {"pk/__init__.py": "", "pk/m0.py": HEADER, "pk/m1.py": HEADER}
+        files = {"pk/__init__.py": "", "pk/m0.py": header(rng), "pk/m1.py": header(rng)}
         imported = sorted({j for i in range(n) if home[i] == 1 for j in specs[i]["bases"] if home[j] == 0})
         if imported:
             form = rng.choice(["from pk.{} import {}", "from .{} import {}"])
@@ -258,7 +297,7 @@ def gen_case(rng: random.Random, combo: tuple | None = None) -> dict:
         for i in range(n):
             files[f"pk/{mod[home[i]]}.py"] += "\n".join(texts[i]) + "\n\n"
         return {"files": files, "package": "pk"}
-    src = HEADER
+    src = header(rng)
     for i in range(n):
         src += "\n".join(texts[i]) + "\n\n"
     if nested:
@@ -275,7 +314,7 @@ def _multi_unit_case(rng: random.Random, n: int, nunits: int, home: list[int], f
         name, form = UNIT_NAMES[u], forms[u]
         rel = {"module": f"{name}.py", "package": f"{name}/__init__.py"}.get(form, f"{name}/core.py")
         where.append(rel)
-        head = HEADER
+        head = header(rng)
         for (dep, src), (line, _prefix) in sorted(reach.items()):
             if dep == u:
                 names = sorted({f"C{j}" for i in range(n) if home[i] == u for j in specs[i]["bases"] if home[j] == src})
